@@ -610,8 +610,16 @@ fn drive_connection(
                 return false;
             }
             Ok(_) => continue,
-            Err(ref e) if would_block(e) => return false,
-            Err(ref e) if interrupted(e) => return drive_connection(conn, wbuf, msgs),
+            // Nothing was written: keep the buffer (which may be the rest of a partially written message) for the
+            // next attempt instead of dropping it.
+            Err(ref e) if would_block(e) => {
+                wbuf.replace(buf);
+                return false;
+            }
+            Err(ref e) if interrupted(e) => {
+                wbuf.replace(buf);
+                return drive_connection(conn, wbuf, msgs);
+            }
             Err(e) => {
                 #[cfg(metrics_verif)]
                 metrics::verif::point("tcp.write.err.post", &[]);
